@@ -90,6 +90,7 @@ func inlineHelpers(g *Graph, f *FuncInfo, depth int, stack map[*FuncInfo]bool) {
 		h := f.W.FuncOf(fn)
 		return h != nil && h.Body() != nil && !stack[h]
 	}
+	splitBoolReturns(g, f)
 	// go/cfg keeps a compound condition as one node: split the ones that call a
 	// candidate helper into their short-circuit steps, so the call is a node
 	for _, n := range append([]*GNode{}, g.Nodes...) {
@@ -105,6 +106,14 @@ func inlineHelpers(g *Graph, f *FuncInfo, depth int, stack map[*FuncInfo]bool) {
 			}
 		}
 	}
+	hoistCalls(g, f, func(call *ast.CallExpr) bool {
+		if !candidate(call) {
+			return false
+		}
+		h := f.W.FuncOf(Callee(info, call))
+		sig := h.Sig()
+		return !hasDefer(h.Body()) && !sig.Variadic() && sig.Params().Len() == len(call.Args) && sig.TypeParams().Len() == 0 && sig.RecvTypeParams().Len() == 0 && sig.Results().Len() == 1
+	})
 	snapshot := append([]*GNode{}, g.Nodes...)
 	for _, n := range snapshot {
 		if n.Ast == nil || n.Defer || n.Go || len(g.Nodes) > inlineBudget {
@@ -461,11 +470,10 @@ func (f *FuncInfo) Bodies() []ast.Node {
 		for root.Encl != nil {
 			root = root.Encl
 		}
-		if root == f {
-			for _, x := range f.inlined {
-				if _, ok := x.(*ast.BlockStmt); ok {
-					out = append(out, x)
-				}
+		// (for a literal: the helpers spliced anywhere in the enclosing function)
+		for _, x := range root.inlined {
+			if _, ok := x.(*ast.BlockStmt); ok {
+				out = append(out, x)
 			}
 		}
 	}
@@ -612,4 +620,68 @@ func isZeroLit(info *types.Info, e ast.Expr) bool {
 		return s == "0" || s == "false" || s == `""`
 	}
 	return false
+}
+
+// IsMentioned reports whether a rule of this run has named the function.
+func IsMentioned(name string) bool { return mentioned[name] }
+
+// splitBoolReturns turns `return a || b` (and &&, !) of a function with a single
+// bool result into the tests it abbreviates — `if a { return true }; return b`
+// — so that rules written over conditions and returns see the same atoms whether
+// the verdict is computed by branches or by one expression.
+func splitBoolReturns(g *Graph, f *FuncInfo) {
+	sig := f.Sig()
+	if sig.Results().Len() != 1 || !isBool(sig.Results().At(0).Type()) {
+		return
+	}
+	info := f.Info()
+	lit := func(v bool, pos token.Pos) *GNode {
+		name := "false"
+		if v {
+			name = "true"
+		}
+		id := &ast.Ident{Name: name, NamePos: pos}
+		obj := types.Universe.Lookup(name)
+		info.Uses[id] = obj
+		if c, ok := obj.(*types.Const); ok {
+			info.Types[id] = types.TypeAndValue{Type: c.Type(), Value: c.Val()}
+		}
+		n := &GNode{ID: len(g.Nodes), Ast: &ast.ReturnStmt{Return: pos, Results: []ast.Expr{id}}, Kind: KReturn}
+		g.Nodes = append(g.Nodes, n)
+		g.byAst[n.Ast] = n
+		return n
+	}
+	for _, n := range append([]*GNode{}, g.Nodes...) {
+		rs, ok := n.Ast.(*ast.ReturnStmt)
+		if !ok || n.Kind != KReturn || len(rs.Results) != 1 {
+			continue
+		}
+		compound := false
+		switch x := ast.Unparen(rs.Results[0]).(type) {
+		case *ast.BinaryExpr:
+			compound = x.Op == token.LAND || x.Op == token.LOR
+		case *ast.UnaryExpr:
+			compound = x.Op == token.NOT
+		}
+		if !compound {
+			continue
+		}
+		cond := rs.Results[0]
+		if g.byAst[n.Ast] == n {
+			delete(g.byAst, n.Ast)
+		}
+		n.Kind, n.Ast = KPlain, cond
+		g.byAst[cond] = n
+		rt, rf := lit(true, rs.Pos()), lit(false, rs.Pos())
+		rt.Block, rf.Block = n.Block, n.Block
+		for _, p := range []struct {
+			to  *GNode
+			val bool
+		}{{rt, true}, {rf, false}} {
+			e := &GEdge{From: n, To: p.to, Cond: cond, Val: p.val}
+			n.Succ = append(n.Succ, e)
+			p.to.Pred = append(p.to.Pred, e)
+		}
+		splitCond(g, n)
+	}
 }
